@@ -420,7 +420,7 @@ Emit == Len(hist) < D \/ PrintT(ToJson(hist))
    These behaviours reach the situations of the bounded model systematically, which a random walk rarely does (e.g. "only
    the staged root moved since the transaction began", "a branch first read after somebody committed to it"). *)
 TourK == 40
-TourQ == 250
+TourQ == 400
 TourT == 1500
 EmitTour == /\ Bound
             /\ (last.att /\ ~last.ff /\ RandomElement(1..TourK) = 1) => PrintT(ToJson(hist))
